@@ -44,15 +44,17 @@ Definition set_corr (b : bool) (f : flags) := mkFlags (f_pred f) (f_inner f) (f_
 Definition init (have : bool) : flags :=
   mkFlags false false false (if have then Some false else None) false.
 
-(* How the user hands an exogenous model to a filter.  StateModel::add_exogenous_model
-   attaches it to the state model (the only place the skip commands and propagate look at).
-   The two-argument constructor DrawParticles(state_model, exogenous_model) (DrawParticles.cpp:21-24)
-   only stores it in a member nothing reads: the state model stays without exogenous model. *)
+(* How the user hands an exogenous model to a filter: StateModel::add_exogenous_model, or the
+   two-argument constructor DrawParticles(state_model, exogenous_model) (DrawParticles.cpp:21-26), which
+   since "fix: DrawParticles attaches the exogenous model it is constructed with" calls
+   state_model_->add_exogenous_model itself.  Either way the model ends up in the state model, the only
+   place the skip commands and propagate look at.  (The constructor as it was before, which only stored
+   the model in a member nothing reads, is in C13_Regress.) *)
 Inductive assembly := ViaStateModel (have : bool) | ViaDrawParticlesCtor.
 Definition init_of (a : assembly) : flags :=
   match a with
   | ViaStateModel have => init have
-  | ViaDrawParticlesCtor => init false
+  | ViaDrawParticlesCtor => init true
   end.
 Definition exo_supplied (a : assembly) : bool :=
   match a with
